@@ -19,7 +19,7 @@ def run(ctx):
     from contracts import ast_nodes as _N
     fu = _copy.copy(_N.UNITS[0])
     fu.prop = "C08"
-    MONITORS[fu.name] = ("m_names_e2e", lambda v: None, lambda nm: None, 60)
+    MONITORS[fu.name] = ("m_names_e2e", lambda v: None, lambda nm: None, 80)
     ctx.pyvc([un_camel, generate_suffix.suffix_step, fu], MONITORS)
     # bounded stand-in for the global uniqueness claim (never counted as proved)
     n = 1500 if ctx.tier == "quick" else 30000
@@ -37,7 +37,7 @@ def run(ctx):
                                 "procedure declared twice in a module"})
     if rc["violation"]:
         ctx.violation("bounded/m_corpus_rel", {"inputs": rc["inputs"], "observed": rc["violation"]}, True)
-    r2 = ctx.monitor("m_names_e2e", "search", 60, ctx.seed)
+    r2 = ctx.monitor("m_names_e2e", "search", 80, ctx.seed)
     ctx.bounded.append({"monitor": "m_names_e2e", "inputs_tried": r2["tried"], "violation": r2["violation"],
                         "kind": "bounded: generated files of 6 libraries x 2 prefixes (overloads with fortran_generic variants, "
                                 "namespaces flattened two deep, static vs instance members, same method names in two classes, "
